@@ -351,12 +351,6 @@ func (b fakeBothanB) GetPrices(ids []string) (*bothan.GetPricesResponse, error) 
 	sorted := append([]string(nil), ids...)
 	sort.Strings(sorted)
 	for _, id := range sorted {
-		// an in-flight signal must not even be asked for
-		for _, s := range r.subs {
-			if s.lastAct == 0 || !contains(s.signals, id) {
-				continue
-			}
-		}
 		resp.Prices = append(resp.Prices, &bothan.Price{SignalId: id, Price: 1000 + uint64(r.poll), Status: bothan.Status_STATUS_AVAILABLE})
 	}
 	if len(sorted) > 0 {
